@@ -158,6 +158,11 @@ func (c *roomCtx) refsClass(cls string, valid interface{}, selfID string) (inter
 		return c.refs([]string{someID, someID}), true
 	case "self":
 		return c.refs([]string{selfID}), true
+	case "cycle": // cites the event that cites it (possible where event IDs are chosen by the sender)
+		if c.fmtV1 {
+			return c.refs([]string{"$dep:hs1"}), true
+		}
+		return c.refs([]string{"$unknownAAAAAAAAAAAAAAAAAAAAAAAAAAAAAAAAAAAA"}), true
 	case "many":
 		ids := make([]string, 0, 30)
 		for i := 0; i < 30; i++ {
